@@ -56,6 +56,7 @@ class Contract:
         self.abstract = kw.pop("abstract", [])      # operations treated as uninterpreted functions: "div", "trunc", "mul"
         self.rt_ensures = _named(kw.pop("rt_ensures", []), "rt")   # clauses evaluated only by the bounded run-time layer
         self.concretize = kw.pop("concretize", None)
+        self.total_float_division = kw.pop("total_float_division", False)   # C doubles: x/0 is inf/nan, not a trap
         if kw:
             raise TypeError("unknown contract keys %s in %s" % (sorted(kw), name))
 
